@@ -115,6 +115,9 @@ def main(argv: Optional[List[str]] = None) -> int:
     except Exception as exc:  # planning failed -> the monitor cannot be applied
         print(f'INCONCLUSIVE property={prop} reason=plan failed: {exc!r}')
         return 2
+    only = os.environ.get('VERIF_ONLY_KIND')
+    if only:  # a PARTIAL run for debugging / seeded-change regression: it can report a violation, never "held"
+        specs = [s for s in specs if s.get('kind', '') == only]
     workdir = Path(tempfile.mkdtemp(prefix=f'fjverif-{prop}-'))
     try:
         with ThreadPoolExecutor(max_workers=MAX_PARALLEL) as pool:
@@ -167,6 +170,8 @@ def conclude(prop: str, check: Any, tier: str, seed: int, specs: List[Dict[str, 
             inconclusive.append(f'post-processing failed: {exc!r}')
     final = check.finalize(tier, seed, merged, evaluations, len(hashes) + distinct_extra)
     inconclusive.extend(final.get('inconclusive', []))
+    if os.environ.get('VERIF_ONLY_KIND'):
+        inconclusive.append(f'partial run: only the {os.environ["VERIF_ONLY_KIND"]!r} shards were executed')
 
     known = findings.load()
     fresh: List[Dict[str, Any]] = []
